@@ -100,7 +100,7 @@ inductive Op where
   | uToChunks | uFromChunks | uSetBit | uClearBit | uBit | iBit | uOnes | uSplitBits | uClearHighBits
   | uBitInfo | iBitInfo
   -- conversions
-  | uTryFromI | uToPrims | iToPrims | uTryFromF64 | iTryFromF64 | uTryFromF32 | iTryFromF32 | uBytes | iBytes
+  | uTryFromI | uTryPrims | iTryPrims | uToPrims | iToPrims | uTryFromF64 | iTryFromF64 | uTryFromF32 | iTryFromF32 | uBytes | iBytes
   -- constant divisors, rings
   | cdNew | cdFromWord | cdFromDword | cdDivRem | mSame | mDiff | mInv | mPow
   -- floats
@@ -136,7 +136,7 @@ def Op.table : List (String × Op) := [
   ("u.clear_bit", .uClearBit), ("u.bit", .uBit), ("i.bit", .iBit), ("u.ones", .uOnes),
   ("u.split_bits", .uSplitBits), ("u.clear_high_bits", .uClearHighBits), ("u.bitinfo", .uBitInfo),
   ("i.bitinfo", .iBitInfo),
-  ("u.try_from_i", .uTryFromI), ("u.to_prims", .uToPrims), ("i.to_prims", .iToPrims),
+  ("u.try_from_i", .uTryFromI), ("u.try_prims", .uTryPrims), ("i.try_prims", .iTryPrims), ("u.to_prims", .uToPrims), ("i.to_prims", .iToPrims),
   ("u.try_from_f64", .uTryFromF64), ("i.try_from_f64", .iTryFromF64), ("u.try_from_f32", .uTryFromF32),
   ("i.try_from_f32", .iTryFromF32), ("u.bytes", .uBytes), ("i.bytes", .iBytes),
   ("cd.new", .cdNew), ("cd.from_word", .cdFromWord), ("cd.from_dword", .cdFromDword), ("cd.divrem", .cdDivRem),
@@ -361,6 +361,10 @@ def verdict (W : Nat) : Op → List Arg → Option Verdict
   | .uOnes, [.dec n] => if n < 0 then none else some (alloc W n.toNat)
   | .uBitInfo, [.int x] | .uToPrims, [.int x] | .uBytes, [.int x] => if x < 0 then none else some .returns
   | .iBitInfo, [.int _] | .iToPrims, [.int _] | .iBytes, [.int _] | .uTryFromI, [.int _] => some .returns
+  -- TryFrom to the primitive types and to UBig: fallible, never panics; WHICH conversions succeed is printed beside
+  -- the verdict (`fitsPattern`): exactly those whose range contains the value
+  | .uTryPrims, [.int x] => if x < 0 then none else some .returns
+  | .iTryPrims, [.int _] => some .returns
   | .uTryFromF64, [.dec b] | .iTryFromF64, [.dec b] => if b < 0 ∨ b ≥ 2 ^ 64 then none else some .returns
   | .uTryFromF32, [.dec b] | .iTryFromF32, [.dec b] => if b < 0 ∨ b ≥ 2 ^ 32 then none else some .returns
   -- ---- ConstDivisor: (D4) `panic_divide_by_0`
@@ -570,6 +574,13 @@ def verdict (W : Nat) : Op → List Arg → Option Verdict
   | .qNearest, [.int _, .int d, .kind _, .int l] | .qNextUp, [.int _, .int d, .kind _, .int l]
   | .qNextDown, [.int _, .int d, .kind _, .int l] => if d ≤ 0 ∨ l < 0 then none else some (divZero l)
   | _, _ => none
+
+/-- `y`/`n` for the conversions to u8 u16 u32 u64 u128 usize i8 i16 i32 i64 i128 isize and UBig (64-bit target):
+    `Ok` exactly when the value lies in the range of the type -/
+def fitsPattern (x : Int) : String :=
+  let u (b : Nat) : Char := if 0 ≤ x ∧ x < 2 ^ b then 'y' else 'n'
+  let i (b : Nat) : Char := if -(2 ^ (b - 1)) ≤ x ∧ x < 2 ^ (b - 1) then 'y' else 'n'
+  String.ofList [u 8, u 16, u 32, u 64, u 128, u 64, i 8, i 16, i 32, i 64, i 128, i 64, if 0 ≤ x then 'y' else 'n']
 
 /-- the documented panic of a call, if any (`none`: documented to return, or not determined) -/
 def documented (W : Nat) (op : Op) (args : List Arg) : Option Kind :=
